@@ -358,8 +358,15 @@ Lemma kernel_decides_domain_irrelevant prev ms tries alloc dom pk d wan :
   kernel_decides prev ms tries alloc dom (with_domain pk d) wan = kernel_decides prev ms tries alloc dom pk wan.
 Proof. reflexivity. Qed.
 
-Lemma probe_ok_domain_irrelevant pk d wan : probe_ok (with_domain pk d) wan = probe_ok pk wan.
-Proof. reflexivity. Qed.
+(* probe_ok contains C01's wf_packet, which (since the normalisation repair of C01_Spec) also asks the raw domain to be
+   over the host-name alphabet: the domain can be replaced by any other name over the alphabet *)
+Lemma probe_ok_with_domain pk d wan :
+  domain_alphabet_ok d = true -> probe_ok pk wan = true -> probe_ok (with_domain pk d) wan = true.
+Proof.
+  intros Hd H. unfold probe_ok, wf_packet in *.
+  cbn [with_domain p_domain p_src p_dst p_sport p_dport p_pname p_mac p_dscp]. rewrite Hd.
+  destruct (domain_alphabet_ok (p_domain pk)); [exact H | cbn in H; discriminate H].
+Qed.
 
 (* C02_kscan_scan, re-read with the bitmap as the parameter (any 32-word bitmap, or none): the kernel side does not
    look at p_domain, the matcher looks at it only through the bitmap *)
@@ -375,12 +382,14 @@ Lemma kscan_scan_bm :
 Proof.
   intros prev ms tries alloc bm pk wan km Hwf Hpx Hprobe Hbm Hinst.
   destruct bm as [w|].
-  - pose proof (C02_kscan_scan prev ms tries alloc (fun _ => w) (with_domain pk "d") wan km Hwf Hpx Hprobe Hbm Hinst) as L.
+  - pose proof (C02_kscan_scan prev ms tries alloc (fun _ => w) (with_domain pk "d") wan km Hwf Hpx
+                  (probe_ok_with_domain pk "d" wan eq_refl Hprobe) Hbm Hinst) as L.
     cbv zeta in L. rewrite match_sets_is_bm in L. cbn [args_of_packet a_domain with_domain p_domain] in L.
     change (("d" =? "")%string) with false in L. cbv iota in L.
     rewrite kernel_decides_domain_irrelevant in L. rewrite L.
     rewrite <- (match_sets_bm_domain_irrelevant _ pk "d"). reflexivity.
-  - pose proof (C02_kscan_scan prev ms tries alloc (fun _ => words32 0) (with_domain pk "") wan km Hwf Hpx Hprobe (words32_ok 0) Hinst) as L.
+  - pose proof (C02_kscan_scan prev ms tries alloc (fun _ => words32 0) (with_domain pk "") wan km Hwf Hpx
+                  (probe_ok_with_domain pk "" wan eq_refl Hprobe) (words32_ok 0) Hinst) as L.
     cbv zeta in L. rewrite match_sets_is_bm in L. cbn [args_of_packet a_domain with_domain p_domain] in L.
     change (("" =? "")%string) with true in L. cbv iota in L.
     rewrite kernel_decides_domain_irrelevant in L. rewrite L.
